@@ -106,9 +106,13 @@
       and then, per clause:
       (1b) `fits` (uncompressed size ≤ limit) ⇔ the model's `TsigFits` on the scan state — selects
            between the "nofit-*" tags (decoded facts: `C10_decoded_tsig_does_not_fit`) and the rest;
-      (1c) `specTsigOutcome` = the model's decision (`tsigStopReply` / authenticated): own key lookup
-           (`findKey` on labels vs. on octets), `outputSizeOf`, `verdict` vs. `verify_request` (C11's
-           `C11_verify_*_iff`) — gives `tsig-error-*`, `rcode-*`, `notauth-on-authenticated`;
+      (1c) (closed: `C10_audit_outcome`, (k) — under `KeysOK cfg.keys`: configured key names are
+           well-formed wire names in lower case, the API's `LowercaseName`; **`C10_full` needs this
+           hypothesis added**: the model compares `k.name` with the lower-cased request key name octet by
+           octet, the audit ignoring case) `specTsigOutcome` = the model's decision (`modelOutcome`;
+           `modelOutcome_stopReply` / `modelOutcome_authenticated` relate it to `tsigStopReply` and to
+           the authenticated rows) — gives `tsig-error-*`, `rcode-*`, `notauth-on-authenticated` once
+           combined with the rows of (h);
       (1d) `parseRdata (tsigRdata rr alg mac)` = the fields of `rr` (round trip) — gives `fudge`,
            `original-id`, `time-signed`, `other-data`, `badtime-*`, `mac-length`, `mac-not-empty`,
            `alg-name`, `key-name`; `tsig-missing` / `two-tsig` / `tsig-not-last` / `tsig-class-ttl`
@@ -139,6 +143,7 @@ import QV.Proofs.ServerSignedOwner
 import QV.Proofs.ServerAnswerDecode
 import QV.Proofs.ServerSignedNoFit
 import QV.Proofs.RequestFields
+import QV.Proofs.RequestOutcome
 import QV.Proofs.ServerSignedTable
 
 namespace QV.C10
@@ -1105,6 +1110,7 @@ theorem C10_request_view (cfg : Server.Cfg) (tr : Server.Transport) (now bufLen 
       Spec.ServerTsig.findTsig req = some d ∧ d.ty = 250 ∧ d.cls = 255 ∧ d.rawTtl = 0 ∧
       Spec.specDecodeName req d.pos = some (owner, nl, fl) ∧ kn.WF ∧ kn.wire = owner ∧
       alg.WF ∧ tsigRd req d = alg.wire ++ rest ∧ 10 ≤ rest.length ∧
+      Spec.Tsig.field16 rest 8 + 16 ≤ rest.length ∧ 12 ≤ d.pos ∧ 1 ≤ Spec.Server.hdr req 10 ∧
       mw = req.extract 0 d.pos ∧ r'.cursor = d.next ∧
       t = ⟨Tsig.lowerName owner, Tsig.lowerName alg.wire,
         (Tsig.rd16 (alg.wire ++ rest) (alg.wire.length + 8)).toNat, alg.wire ++ rest⟩ ∧
@@ -1119,6 +1125,35 @@ theorem C10_request_view (cfg : Server.Cfg) (tr : Server.Transport) (now bufLen 
                 other := (fieldsOf alg.labels rest).other } [])) now,
           Spec.ServerTsig.findKey keys kn.labels⟩ :=
   request_view cfg tr now bufLen req hbuf hpay hreq hr hv hm keys
+
+/-! ## (k) the decision (1c) -/
+
+open QV.ServerScan in
+/-- **C10 (1c): the audit's `specTsigOutcome` is the model's decision.**  For configured keys whose
+    names are `LowercaseName`s (`KeysOK`: well-formed wire names in lower case — what the library API
+    guarantees; see the header), the audit's view of the request is
+    `⟨key name labels, RDATA fields, request prefix, outcome, key⟩` with
+    `outcome = modelOutcome cfg.keys now kn alg rest mw` — the decision `tsigProcess` takes on the very
+    record `t = viewRr kn alg rest` and prefix `mw` of the run: the algorithm table
+    (`outputSizeOf_view`), the key map (`findKey_view`: lookup by labels ignoring case = lookup by
+    lower-case octets), `verify_request` = RFC 8945 §5.2 on the audit's fields (`verifyRequest_view`, from
+    C11's `C11_verify_decision`), the HMAC (`hmSpec` = `realHmac`), the clock.  `modelOutcome_stopReply`
+    / `modelOutcome_authenticated` tie `modelOutcome` to the rows of the decision table (`tsigStopReply`,
+    `C10_rows_exhaustive`). -/
+theorem C10_audit_outcome (cfg : Server.Cfg) (tr : Server.Transport) (now bufLen : Nat) (req : Bytes)
+    (hbuf : minBuf tr cfg.payload ≤ bufLen) (hpay : 512 ≤ cfg.payload) (hreq : req.size ≤ Rdata.USIZE_MAX)
+    (hr : (Spec.Server.specScanWith (catKind cfg) cfg.payload req).respond = true)
+    (hv : (Spec.Server.specScanWith (catKind cfg) cfg.payload req).verdict = .tsigReached)
+    (hk : KeysOK cfg.keys) (nowT : Tsig.TimeSigned) (hnow : Tsig.TimeSigned.tryFromUnix now = some nowT) :
+    ∃ (t : Tsig.ReadTsigRr) (mw : Bytes) (r' : Reader.Reader) (question : Option (WName × Nat × Nat))
+      (d : Spec.Server.Delim) (kn alg : WName) (rest : List UInt8),
+      ServerContent.TsigRun cfg tr now bufLen req t mw r' question ∧
+      Spec.ServerTsig.findTsig req = some d ∧ kn.WF ∧ alg.WF ∧
+      mw = req.extract 0 d.pos ∧ r'.cursor = d.next ∧ t = viewRr kn alg rest ∧
+      Spec.ServerTsig.viewRequest hmSpec (specKeys cfg.keys) req now =
+        some ⟨kn.labels, fieldsOf alg.labels rest, mw.toList, modelOutcome cfg.keys nowT kn alg rest mw.toList,
+          Spec.ServerTsig.findKey (specKeys cfg.keys) kn.labels⟩ :=
+  request_outcome cfg tr now bufLen req hbuf hpay hreq hr hv hk nowT hnow
 
 /-! ## non-vacuity: concrete instances of the hypotheses used above -/
 
